@@ -68,17 +68,24 @@ def extract(g, X):
     def update_arms():
         b = X.fn_body(file_rs, "update")
         arms = {}
-        for name in ("Free", "Raw", "Stream", "Promised", "Invalid"):
-            m = re.search(r"XRef::" + name + r"\s*(?:\{[^}]*\})?\s*=>\s*([^\n]*)", b)
-            t = m.group(1)
-            if "panic!" in t:
-                arms[name] = 0
-            elif re.search(r"PlainRef\s*\{\s*id:\s*\w+\.id,\s*gen:\s*gen_nr\s*\}", t):
-                arms[name] = 1
-            elif re.search(r"PlainRef\s*\{\s*id:\s*\w+\.id,\s*gen:\s*0\s*\}", t):
-                arms[name] = 2
-            else:
-                arms[name] = 9
+        # what the reference of the updated object is built from, per kind of table entry (arms may be merged with `|`,
+        # reordered, written as blocks): 0 panic, 1 the entry's generation, 2 generation 0, 9 anything else
+        for arm in X.match_arms(b, r"self\.refs\.get\(\s*\w+\.id\s*\)\?"):
+            for p in arm.pats:
+                name = X.variant_name(p)
+                if name is None or arm.guard is not None:
+                    raise ValueError("arm pattern %r" % p)
+                t = arm.expr
+                gb = re.search(r"\bgen_nr\s*(?::\s*(\w+))?", p)
+                gen = (gb.group(1) or "gen_nr") if gb else None
+                if re.match(r"panic!", t):
+                    arms[name] = 0
+                elif gen and re.fullmatch(r"PlainRef\s*\{\s*id:\s*\w+\.id,\s*gen:\s*" + gen + r"\s*,?\s*\}", t):
+                    arms[name] = 1
+                elif re.fullmatch(r"PlainRef\s*\{\s*id:\s*\w+\.id,\s*gen:\s*0\s*,?\s*\}", t):
+                    arms[name] = 2
+                else:
+                    arms[name] = 9
         clears = len(re.findall(r"self\.cache\.clear\(\)", b))
         merge = 1 if "append(" in b else 0
         cb = X.fn_body(file_rs, "create")
@@ -89,8 +96,8 @@ def extract(g, X):
 
     def table_new():
         b = X.fn_body(xref_rs, "new")
-        m = re.search(r"XRef::Free\s*\{\s*next_obj_nr:\s*(\w+),\s*gen_nr:\s*(\w+)\s*\}", b)
-        return str(X.lit(m.group(1))), str(X.lit(m.group(2)))
+        m = re.search(r"XRef::Free\s*\{\s*next_obj_nr:\s*(" + X.BYTE + r")\s*,\s*gen_nr:\s*(" + X.BYTE + r")\s*,?\s*\}", b)
+        return str(X.int_value(m.group(1))), str(X.int_value(m.group(2)))
     g.attempt([("sto_new_free_next", "N"), ("sto_new_free_gen", "N")], "xref.rs:XRefTable::new", table_new)
 
     def write_stream():
